@@ -64,14 +64,18 @@ func (s *c12State) checkTerm(cs c12Case) {
 	var out, action string
 	var temps []string
 	pan := ""
+	envShell, withShell := cs.shellPair()
+	fish := s.dialect(envShell, withShell).fish
 	func() {
 		defer func() {
 			if r := recover(); r != nil {
 				pan = fmt.Sprint(r)
 			}
 		}()
-		valid, out, temps, action = fzf.VerifTerminalExpand(cs.Template, cs.ForcePlus, cs.Delim, cs.Printsep, cs.Query,
-			items, cs.Cy, order, cs.Prompt, c12WithShell(cs.Fish))
+		c12UnderShell(envShell, func() {
+			valid, out, temps, action = fzf.VerifTerminalExpand(cs.Template, cs.ForcePlus, cs.Delim, cs.Printsep, cs.Query,
+				items, cs.Cy, order, cs.Prompt, withShell)
+		})
 	}()
 	rep.ImplTraces++
 	if pan != "" {
@@ -109,7 +113,7 @@ func (s *c12State) checkTerm(cs c12Case) {
 	}
 	key, _ := json.Marshal(cs)
 	nontrivial := false
-	if cur != nil && !cs.Fish && cs.Parts != nil {
+	if cur != nil && !fish && cs.Parts != nil {
 		rep.SpecChecks++
 		if !valid {
 			rep.Disagreement(Disagreement{Kind: "spec", Name: "terminal_expansion_valid", Input: cs,
@@ -119,12 +123,18 @@ func (s *c12State) checkTerm(cs c12Case) {
 		eff.Cur = cur
 		eff.Sel = s.plusItems(cur, sel)
 		nontrivial = s.specExpansion(cs, eff, out, temps, action, read)
-	} else if !cs.Fish {
+	} else if !fish {
 		s.shellModelCheck(cs, out)
+	} else if cur != nil && cs.Parts != nil {
+		eff := cs
+		eff.Cur = cur
+		eff.Sel = s.plusItems(cur, sel)
+		s.fishExpansion(cs, eff, out)
 	}
 	rep.Eval(string(key), nontrivial)
 	rep.Sample(cs)
 	rep.Count("kind=term")
+	s.countShells(cs)
 	rep.Count(fmt.Sprintf("term:selected=%d", len(sel)))
 	switch {
 	case cur == nil:
@@ -223,7 +233,11 @@ func c12WaitFile(s *Session, path string, d time.Duration) bool {
 // runLive drives one session and only observes.
 func c12RunLive(c *Ctx, cs c12Case) (o c12LiveObs) {
 	args, stdin := c12LiveArgs(cs)
-	sess, err := StartSession(c, SessionOpts{Args: args, Stdin: stdin})
+	so := SessionOpts{Args: args, Stdin: stdin}
+	if cs.EnvShell != nil {
+		so.Env = []string{"SHELL=" + *cs.EnvShell} // a later entry wins over the session's default SHELL=/bin/sh
+	}
+	sess, err := StartSession(c, so)
 	if err != nil {
 		o.infra = "start: " + err.Error()
 		return
@@ -409,6 +423,7 @@ func (s *c12State) countLive(cs c12Case, o c12LiveObs) {
 	rep := s.c.Rep
 	rep.Count("kind=live")
 	rep.Count("live:mode=" + cs.Mode)
+	s.countShells(cs)
 	if o.cur != nil {
 		on := false
 		for _, it := range o.sel {
@@ -699,6 +714,7 @@ func c12GenLive(r *RNG, n int) c12Case {
 	if r.Chance(1, 4) {
 		cs.Shell = "bash -c"
 	}
+	c12GenLiveShells(r, &cs)
 	cs.Acts = c12GenActs(r)
 	cs.Mode = Pick(r, []string{"execute-silent", "execute-silent", "execute-silent", "execute-silent", "execute", "execute-multi",
 		"transform-header", "preview", "change-preview", "reload", "become"})
